@@ -36,7 +36,7 @@ REAL = common.REAL_ALL
 STUBS = common.STUBS_ALL
 ENVELOPE_RULES = ['memory-past-above-delayed (F08) for the pastified online monitor']
 PROBES = ['pastified', 'positive_verdict', 'negative_verdict', 'zero_robustness_no_claim', 'perturbation_clause', 'nested_not_or_implies',
-          'dense_time', 'online', 'modular_shared_delays']
+          'dense_time', 'online', 'modular_shared_delays', 'same_numerals_different_unit']
 INF = float('inf')
 
 
@@ -80,8 +80,24 @@ def gen(rng, tier):
             ast, defs, top = g
             pvc = True
             modular = {'key': json.dumps(ast), 'subs': ['%s = %s;' % (nm, sg.to_text(a)) for nm, a in defs], 'top': 'out = ' + sg.to_text(top) + ';'}
+    explicit = None
+    if (not dense) and mode == 'on' and modular is None and rng.random() < 0.08:
+        # two windows written with the same numerals in different units (period = 1 fine unit): [0:2ms] and [0:2s]
+        fine, coarse = rng.choice([('ms', 's'), ('us', 'ms'), ('ns', 'us')])
+        op = rng.choice(['historically_b', 'once_b'])
+        pr_ = ['pred', rng.choice(['>=', '<=']), ['var', rng.choice(vars_)], ['const', rng.choice(sg.LATTICE)]]
+        lo = rng.randint(0, 1)
+        hi = lo + rng.randint(1, 2)
+        a1, a2 = [op, lo, hi, pr_], [op, 1000 * lo, 1000 * hi, pr_]
+        if rng.random() < 0.5:
+            a1, a2 = a2, a1
+        ast = [rng.choice(['and', 'or', 'implies']), a1, ['not', a2]] if rng.random() < 0.7 else [rng.choice(['and', 'or']), ['not', a1], a2]
+        table = {(lo, hi): '[%d:%d%s]' % (lo, hi, fine), (1000 * lo, 1000 * hi): '[%d:%d%s]' % (lo, hi, coarse)}
+        explicit = {'key': json.dumps(ast), 'text': 'out = ' + sg.to_text(ast, None, lambda l, h, sp: table[(l, h)]) + ';',
+                    'unit': fine, 'sampling': [1, fine, 0.1]}
+        pvc = True
     pastify = mode == 'on' and any(x[0] in sg.FUTURE_OPS for x in sg.walk(ast))
-    sc = {'kind': kind, 'mode': mode, 'vars': vars_, 'ast': ast, 'pvc': pvc, 'pastify': pastify, 'modular': modular,
+    sc = {'explicit': explicit, 'kind': kind, 'mode': mode, 'vars': vars_, 'ast': ast, 'pvc': pvc, 'pastify': pastify, 'modular': modular,
           'noise_seeds': [[rng.uniform(-1, 1) for _ in range(40)] for _ in range(3)]}
     if dense:
         sc['signals'] = dict((v, world.gen_dense_signal(rng, rng.randint(1, 6), start_q=0, max_gap_q=4)[0]) for v in vars_)
@@ -118,6 +134,10 @@ def sgn(v):
 
 def desc_of(sc):
     dense = sc['kind'].startswith('ct')
+    e = sc.get('explicit')
+    if e and e['key'] == json.dumps(sc['ast']):
+        return {'cls': sc['kind'], 'vars': common.var_decls(sc['vars']), 'pastify': False, 'spec': e['text'], 'unit': e['unit'],
+                'sampling': e['sampling']}
     m = sc.get('modular')
     if m and m['key'] == json.dumps(sc['ast']):
         return {'cls': sc['kind'], 'vars': common.var_decls(sc['vars']), 'pastify': bool(sc.get('pastify')), 'subspecs': m['subs'], 'spec': m['top']}
@@ -310,6 +330,8 @@ def run(sc):
         r.probes['online'] += 1
     if sc.get('modular') and sc['modular']['key'] == json.dumps(sc['ast']):
         r.probes['modular_shared_delays'] += 1
+    if sc.get('explicit') and sc['explicit']['key'] == json.dumps(sc['ast']):
+        r.probes['same_numerals_different_unit'] += 1
     if any(s != 0 for s in signs) and checked:
         r.nontrivial.add('%s|%s%s|%s' % (sg.shape(sc['ast']), sc['kind'], sc['mode'], ''.join('+' if s > 0 else '-' if s < 0 else '0' for s in signs[:12])))
     return r
